@@ -623,7 +623,7 @@ fn script_wrap(tool: &str, game: &str, body: &str) -> String {
 /// string-typed arguments: every size/mask/furibug attribute combination, strings around the buffer sizes, furigana
 /// separators, non-ASCII text, several string instructions in a row (state carried from one string to the next)
 fn string_arg_case(rng: &mut Rng) -> (&'static str, &'static str, String, String, String) {
-    let (tool, game) = *rng.pick(&[("trumsg", "12"), ("trumsg", "12"), ("trumsg", "6"), ("trumsg", "17"), ("trumsg", "9"), ("truanm", "12"), ("truecl", "6"), ("truecl", "10"), ("trustd", "12")]);
+    let (tool, game) = *rng.pick(&[("trumsg", "12"), ("trumsg", "12"), ("trumsg", "12"), ("trumsg", "12"), ("trumsg", "6"), ("trumsg", "17"), ("trumsg", "9"), ("truanm", "12"), ("truecl", "6"), ("truecl", "10"), ("trustd", "12")]);
     let sigs = ["z(len=8)", "z(len=8;furibug)", "z(bs=4)", "z(bs=4;furibug)", "m(bs=4;mask=0x77,7,16)", "m(bs=4;mask=0x77,7,16;furibug)", "m(len=16;mask=0x77,7,16;furibug)", "z(len=8;nulless)", "z(len=4;nulless;furibug)",
                 "p(bs=4)", "P(bs=4)", "Sz(bs=4)", "z(len=4)z(len=4)", "z(bs=1)", "m(len=1;mask=0,0,0)", "z(len=0)", "z(len=8)S", "m(bs=4;mask=255,255,255)"];
     let strs = ["", "a", "|ab", "abcdefg", "abcdefgh", "abcdefghi", "a|b|c", "|", "||", "|abcdefgh", "\\0", "a\\0b", "\u{3042}\u{3044}\u{3046}", "|\u{3042}", "ab|cdefghij", "\\n", "x|", "\u{e9}"];
@@ -632,12 +632,12 @@ fn string_arg_case(rng: &mut Rng) -> (&'static str, &'static str, String, String
     for k in 0..n { map.push_str(&format!("{} str{}\n", 200 + k, k)); }
     map.push_str("!ins_signatures\n");
     let mut arities = vec![];
-    for k in 0..n { let sg = *rng.pick(&sigs); map.push_str(&format!("{} {}\n", 200 + k, sg)); arities.push(sg.to_string()); }
+    for k in 0..n { let sg = if rng.chance(1, 2) { *rng.pick(&["z(len=8;furibug)", "m(len=16;mask=0x77,7,16;furibug)", "z(bs=4;furibug)", "m(bs=4;mask=0x77,7,16;furibug)", "z(len=4;nulless;furibug)"]) } else { *rng.pick(&sigs) }; map.push_str(&format!("{} {}\n", 200 + k, sg)); arities.push(sg.to_string()); }
     let mut body = String::new();
     for _ in 0..(1 + rng.below(4)) {
         let k = rng.below(n as u64) as usize;
         let args = arities[k].split(')').flat_map(|part| { let head = part.split('(').next().unwrap_or(""); head.chars().filter(|c| c.is_ascii_alphabetic()).collect::<Vec<_>>() })
-            .map(|c| if c == 'S' { "1".to_string() } else { format!("\"{}\"", *rng.pick(&strs)) }).collect::<Vec<_>>().join(", ");
+            .map(|c| if c == 'S' { "1".to_string() } else if rng.chance(1, 3) { format!("\"{}\"", *rng.pick(&["|ab", "|abc", "a|bcd", "|abcdefg", "|a"])) } else { format!("\"{}\"", *rng.pick(&strs)) }).collect::<Vec<_>>().join(", ");
         body.push_str(&format!("    {}({});\n", if rng.chance(1, 2) { format!("str{}", k) } else { format!("ins_{}", 200 + k) }, args));
     }
     let pragma = rng.chance(1, 2);
@@ -654,7 +654,7 @@ fn gamemap_case(rng: &mut Rng) -> (&'static str, &'static str, String, String, S
     map.push_str("!game_files\n");
     let targets = [me.as_str(), me.as_str(), "./m.eclm", "nonexistent.map", "", ".", "..", real.as_str(), "/dev/null", "in.spec", "/"];
     let g: i32 = game.parse().unwrap_or(12);
-    map.push_str(&format!("{} {}\n", g, *rng.pick(&targets)));
+    map.push_str(&format!("{} {}\n", g, if rng.chance(1, 2) { me.as_str() } else { *rng.pick(&targets) }));
     for _ in 0..rng.below(3) { map.push_str(&format!("{} {}\n", *rng.pick(&["6", "7", "8", "12", "95", "128", "0", "-1", "99999"]), *rng.pick(&targets))); }
     if rng.chance(1, 4) { map.push_str("!ins_names\n1 foo\n"); }
     let pragma = rng.chance(1, 2);
